@@ -36,6 +36,8 @@ Init == l = 1 /\ m = M0 /\ viol = {}
 RegFind(reg, id) == LET S == {i \in 1..Len(reg) : reg[i].id = id} IN IF S = {} THEN 0 ELSE CHOOSE i \in S : TRUE
 RegPut(reg, e) == LET i == RegFind(reg, e.id) IN IF i = 0 THEN Append(reg, e) ELSE [reg EXCEPT ![i] = e]
 RegDel(reg, id) == SelectSeq(reg, LAMBDA e : e.id # id)
+\* bound types after a malformed parameter block (no well-formed reuse execution can be decoded with them)
+UnknownTypes == <<[ty |-> -1, uns |-> FALSE]>>
 NoLong == [x \in {} |-> << >>]
 
 \* ---- command queue entries ----
@@ -360,8 +362,12 @@ Step ==
                                /\ q.p[11 + ((mm.reg[r].np + 7) \div 8)] = 0
                     IN /\ m' = [mm EXCEPT !.q[i].st = "disp", !.q[i].bin = (c.kind = "execute"), !.q[i].exp = exp, !.q[i].at = l, !.q[i].unbound = unb,
                                           !.cur = i, !.n.cbs = @ + 1,
-                                          !.free = @ \/ (c.kind = "execute" /\ ~exp.ok),
-                                          !.reg = IF e.name = "on_close" /\ e.name = c.cb THEN RegDel(@, c.arg) ELSE @,
+                                          \* a malformed parameter block: this execution's parameters are not judged and the types
+                                          \* bound for this statement are unknown from here on (until a well-formed rebind); everything
+                                          \* else on the connection - other statements in particular - is judged as usual
+                                          !.reg = IF e.name = "on_close" /\ e.name = c.cb THEN RegDel(@, c.arg)
+                                                  ELSE IF c.kind = "execute" /\ r # 0 /\ ~exp.ok THEN [@ EXCEPT ![r].types = UnknownTypes]
+                                                  ELSE @,
                                           !.lost = @ \/ argv # {} \/ prev # {}]
                        /\ viol' = r0.v \cup vdead \cup argv \cup prev
        [] e.e = "pv" /\ m.cur # 0 /\ ~m.lost /\ m.q[m.cur].unbound ->
@@ -413,6 +419,7 @@ Step ==
                          \cup (IF e.res = "err" /\ ~m.fault /\ "kind" \in DOMAIN e /\ e.kind \notin {"InvalidData", "Other"}
                                THEN {V("C03", l, "writer call " \o o.op \o " failed with a connection-level error (" \o e.kind \o ") although the transport reported none")}
                                     \cup (IF m.enc THEN {V("C18", l, "over TLS a writer call failed with " \o e.kind \o " although the transport reported no error: not served as over plaintext")} ELSE {})
+                                    \cup (IF o.op \in {"start", "reply"} THEN {V("C09", l, "the column metadata declared by the shim could not be sent (" \o e.kind \o ") although the transport reported no error")} ELSE {})
                                ELSE {})
        [] e.e = "cb_ret" ->
             IF m.cur = 0 THEN UNCHANGED <<m, viol>>
@@ -537,9 +544,12 @@ Step ==
                                /\ ~mm.eof /\ ~mm.quit /\ ~mm.wpanic /\ mm.panics = << >> /\ ~(mm.ctls /\ ~mm.enc)
                             THEN {V("C01", l, "the connection ended (" \o res \o ") in the middle of a well-formed command stream: commands the client sent never reach the shim")}
                             ELSE {}
+                \* a rejected login is answered with ERR 1045: written but never flushed is not "received"
+                vrej == IF mm.dead = "authentication rejected" /\ ~mm.fault /\ e.unflushed # 0
+                        THEN {V("C11", l, "the ERR packet for the rejected login was never flushed to the client")} ELSE {}
                 vblock == IF mm.blocked /\ ~mm.lost THEN {V("C12", l, "lock-step client blocked: the server waited for input while the client was waiting for a reply")} ELSE {}
             IN /\ m' = [mm EXCEPT !.done = TRUE]
-               /\ viol' = r0.v \cup vres \cup vsync \cup vblock \cup vpanic \cup vtls \cup vmissed \cup vrefused \cup vhs \cup vundeliv
+               /\ viol' = r0.v \cup vres \cup vsync \cup vblock \cup vpanic \cup vtls \cup vmissed \cup vrefused \cup vhs \cup vundeliv \cup vrej
        [] OTHER -> UNCHANGED <<m, viol>>
 
 Spec == Init /\ [][Step]_vars
